@@ -4024,6 +4024,16 @@ func (p *Posix) CopyObject(ctx context.Context, input s3response.CopyObjectInput
 		}
 		version = backend.GetPtrFromString(string(vId))
 
+		// REPLACE replaces the whole set of content headers: drop the ones
+		// the previous object carried, storeObjectMetadata only writes those
+		// that are supplied
+		for _, attr := range []string{contentTypeHdr, contentEncHdr, contentDispHdr, contentLangHdr, cacheCtrlHdr, expiresHdr} {
+			err := p.meta.DeleteAttribute(dstBucket, dstObject, attr)
+			if err != nil && !errors.Is(err, meta.ErrNoSuchKey) {
+				return nil, fmt.Errorf("delete %v attribute: %w", attr, err)
+			}
+		}
+
 		// Store the provided object meta properties
 		err = p.storeObjectMetadata(nil, dstBucket, dstObject,
 			objectMetadata{
